@@ -125,6 +125,7 @@ fn c03_check(map: &AnyMap, s: &State, probes: &mut HistProbes, findings: &mut Ve
         i_cell: &|o, d| map.i_cell(o, d),
         custom: &|k, d| map.custom_orbit(k, d),
         custom_tx: &|k, d| fast_stm::atomically(|t| map.custom_orbit_tx(t, k, d)),
+        pair: &|p1, d1, p2, d2| map.orbit_pair(p1, d1, p2, d2),
     };
     for f in check_ids_orbits(s, &q, &darts, &mut probes.c03_queries) {
         findings.push(StepFinding { step, finding: f });
